@@ -15,7 +15,18 @@ A spec is a JSON dict:
           result — recovery / DecodeResult fields / arrays of the run dict / the generated error; the int seeds which),
    'repeats': int (optional, decode: the call is repeated that many times with the global `random` module seeded
           differently each time — for calls whose documented randomness provably does not apply; all answers must agree)}
+   'errs': rows of per-step errors passed as context `step_errors` (decode_ftp, main process only, like 'err'),
+   'life': {'code'|'dec'|'em': 'kept'|'temp'} (optional, shared mode: OBJECT LIFETIME of each argument object — 'kept'
+          (default) = the pool's long-lived object for that constructor spec; 'temp' = an object constructed for this
+          call only and dropped right after it, as `decoder.decode(code, s, error_model=Model(b))` in a sweep loop does.
+          Dead temporaries give their address, hence their id(), to later objects: the pool prefers, among a few
+          candidate constructions, one that landed on the address of a dead temporary of the same role — the history
+          that anything keyed on id(obj) / a dangling identity is sensitive to; `info` of the result counts them)}
   op 'generate' = error_model.generate(code, p, default_rng(seed)).
+  ARGUMENTS: every argument container is built ONCE per spec (the caller's own objects: syndrome array, `error`, the
+  LISTS `step_errors` / `step_measurement_errors` of row arrays as app.run_once_ftp builds them) and re-used by the repeats
+  of that call; before / after every call they are compared DEEPLY (container type, length, identity of the elements,
+  array digests incl. shape / dtype / writeable flag) and the argument objects' repr() / label must be unchanged.
 In shared mode a decode / decode_ftp / generate call carrying 'mut' is repeated right after the caller's modification and
 must give the first answer again; in both modes the arrays handed back are checked for identity / shared memory with the
 arrays handed back by earlier calls and with every array reachable from a functools cache of qecsim or from the
@@ -129,17 +140,47 @@ def key(x):
 class Pool:
     """object provider: shared=True keeps one object per distinct constructor spec"""
 
+    TEMP_TRIES = 64
+
     def __init__(self, shared):
         self.shared = shared
         self.objs = {}
         self.handed = []  # arrays handed back to the caller by earlier calls (kept alive: ids / memory stay distinct)
+        self.dead = {}  # role -> ids of the temporaries handed out so far (dead by now unless qecsim pinned them)
+        self.info = {'temp': 0, 'reused': 0}
+        self.last_temp = {}
 
-    def get(self, table, spec):
+    def get(self, table, spec, life=None):
         name, args = spec
         k = key([name, args])
+        klass = _cls(table, name)  # resolved BEFORE a temporary is released: nothing else is allocated in between
+        a, kw = (tuple(args) if isinstance(args, list) else ()), (args if isinstance(args, dict) else {})
+        make = lambda: klass(*a, **kw)  # noqa: E731
+        if self.shared and life == 'temp':
+            # a temporary: constructed for this call, released before the next temporary of its role is constructed (at
+            # the latest).  Its address is free again then; prefer a construction that lands on the address of an earlier
+            # (dead) temporary of the same role — CPython does that by itself in a tight sweep loop; the garbage of the
+            # calls in between makes it less regular here, hence a few candidate constructions
+            dead = self.dead.setdefault(id(table), set())
+            self.last_temp[id(table)] = None  # the previous temporary of this role dies HERE
+            first = o = make()
+            spare = []
+            for _ in range(self.TEMP_TRIES if dead else 0):
+                if id(o) in dead:
+                    break
+                spare.append(o)
+                o = make()
+            else:
+                o = first
+            self.last_temp[id(table)] = o
+            del spare, first
+            self.info['temp'] += 1
+            self.info['reused'] += id(o) in dead
+            dead.add(id(o))
+            return o
         if self.shared and k in self.objs:
             return self.objs[k]
-        o = _mk(table, name, args if isinstance(args, list) else (), args if isinstance(args, dict) else None)
+        o = make()
         if self.shared:
             self.objs[k] = o
         return o
@@ -392,13 +433,55 @@ def global_state():
     return st
 
 
+def deep_state(v, depth=4):
+    """canonical deep description of an argument as the caller sees it: container type, length, identity and state of
+    the elements; arrays by digest (contents, shape, dtype) and writeable flag"""
+    if isinstance(v, np.ndarray):
+        return ('ndarray', digest(v), bool(v.flags.writeable))
+    if isinstance(v, (list, tuple)) and depth > 0:
+        return (type(v).__name__, len(v), tuple((id(x), deep_state(x, depth - 1)) for x in v))
+    if isinstance(v, dict) and depth > 0:
+        return ('dict', len(v), tuple((repr(k), id(x), deep_state(x, depth - 1)) for k, x in v.items()))
+    return (type(v).__name__, repr(v))
+
+
+def describe_change(name, a, b):
+    if a[0] != b[0]:
+        return 'type {} -> {}'.format(a[0], b[0])
+    if a[0] in ('list', 'tuple', 'dict'):
+        if a[1] != b[1]:
+            return 'a {} of {} elements before the call, {} elements after it'.format(a[0], a[1], b[1])
+        for i, (x, y) in enumerate(zip(a[2], b[2])):
+            if x != y:
+                if x[:-2] != y[:-2] or x[-2] != y[-2]:
+                    return 'element {} replaced by another object'.format(i)
+                return 'element {}: {}'.format(i, describe_change(name, x[-1], y[-1]))
+    if a[0] == 'ndarray':
+        return 'array contents / shape / dtype changed' if a[1] != b[1] else 'writeable flag {} -> {}'.format(a[2], b[2])
+    return '{} -> {}'.format(a[1], b[1])
+
+
+def object_state(o):
+    """what an argument OBJECT publishes about itself without computing anything (no cached method is called: that
+    would pin a temporary in qecsim's caches)"""
+    out = [type(o).__name__]
+    for nm in ('__repr__', 'label'):
+        try:
+            v = getattr(o, nm)
+            out.append(v() if callable(v) else v)
+        except Exception as ex:  # noqa
+            out.append('EXC:' + type(ex).__name__)
+    return tuple(out)
+
+
 def execute(spec, pool, limit, watch=None, shared=False):
     """returns (canonical result, list of notes); notes are tagged ARG / CODE / ALIAS / CACHE-WRITE / REPEAT"""
     from qecsim import app
-    code = pool.get(CODES, spec['code'])
+    life = spec.get('life') or {}
+    code = pool.get(CODES, spec['code'], life.get('code'))
     LAST_CODE[0] = code
-    dec = pool.get(DECODERS, spec['dec'])
-    em = pool.get(EMS, spec['em'])
+    dec = pool.get(DECODERS, spec['dec'], life.get('dec'))
+    em = pool.get(EMS, spec['em'], life.get('em'))
     op, p = spec['op'], spec['p']
     notes = []
     args = {}
@@ -411,22 +494,33 @@ def execute(spec, pool, limit, watch=None, shared=False):
             args['err'] = parse_bits(spec['err'])
         if spec.get('meas'):
             args['meas'] = np.array([parse_bits(r) for r in spec['meas'].split('/')])
+        if spec.get('errs'):
+            args['errs'] = np.array([parse_bits(r) for r in spec['errs'].split('/')])
     before = {k: digest(v) for k, v in args.items()}
+    # the caller's own argument objects, built once: the repeats of this call pass the very same objects again
+    kwargs = {'error_model': em, 'error_probability': p}
+    if 'err' in args:
+        kwargs['error'] = args['err']
+    if 'errs' in args:
+        kwargs['step_errors'] = list(args['errs'])
+    if 'meas' in args:
+        kwargs['step_measurement_errors'] = list(args['meas'])
+    if op == 'decode_ftp':
+        kwargs['measurement_error_probability'] = spec['q']
+    deep = {'syndrome': args.get('syn')}
+    deep.update((k, v) for k, v in kwargs.items() if k not in ('error_model', 'error_probability'))
+    deep_before = {k: deep_state(v) for k, v in deep.items()}
+    objs_before = [(nm, o, object_state(o)) for nm, o in (('code', code), ('decoder', dec), ('error_model', em))]
     cbefore = [(c, code_digest(c)) for c in (watch or [])] + [(code, code_digest(code))]
     held = {i: (a, digest(a)) for i, a in cached_arrays((code, dec, em)).items()} if shared else {}
 
     def call(pin=PIN):
         random.seed(pin)
-        ctx = {'error_model': em, 'error_probability': p}
-        if 'err' in args:
-            ctx['error'] = args['err']
-        if 'meas' in args:
-            ctx['step_measurement_errors'] = list(args['meas'])
         if op == 'decode':
-            raw = dec.decode(code, args['syn'], **ctx)
+            raw = dec.decode(code, args['syn'], **kwargs)
             return raw, canon_decoding(raw)
         if op == 'decode_ftp':
-            raw = dec.decode_ftp(code, spec['T'], args['syn'], measurement_error_probability=spec['q'], **ctx)
+            raw = dec.decode_ftp(code, spec['T'], args['syn'], **kwargs)
             return raw, canon_decoding(raw)
         if op == 'generate':
             raw = em.generate(code, p, np.random.default_rng(spec['seed']))
@@ -468,6 +562,19 @@ def execute(spec, pool, limit, watch=None, shared=False):
     for k, v in args.items():
         if digest(v) != before[k]:
             notes.append('ARG: argument array {} modified by the call'.format(k))
+    if not any(nt.startswith('ARG') for nt in notes):
+        for k, v in deep.items():
+            st = deep_state(v)
+            if st != deep_before[k]:
+                notes.append('ARG: argument `{}` passed to {} is not what the caller passed any more after the call: {}'
+                             .format(k, op, describe_change(k, deep_before[k], st)))
+                break
+        for nm, o, st in objs_before:
+            st1 = object_state(o)
+            if st1 != st:
+                notes.append('ARG: the {} object passed to {} describes itself differently after the call: {} -> {}'
+                             .format(nm, op, st, st1))
+                break
     for c, d in cbefore:
         if code_digest(c) != d:
             notes.append('CODE: stabilizers/logicals of {!r} modified by the call'.format(c))
@@ -513,7 +620,12 @@ def execute(spec, pool, limit, watch=None, shared=False):
         caller_mutates(outs, spec['mut'])
         if shared and op in ('decode', 'decode_ftp', 'generate'):
             raw2, res2 = timed()
-            if 'TIMEOUT' not in (res, res2) and res2 != res:
+            arg = [k for k, nt in enumerate(notes) if nt.startswith('ARG')]
+            if 'TIMEOUT' not in (res, res2) and res2 != res and arg:
+                # the call changed its own arguments: that, not the caller's modification of the result, is the history
+                notes[arg[0]] += ('; the same call repeated with the very same argument objects then gives a different '
+                                  'result (first {} second {})'.format(res[:300], res2[:300]))
+            elif 'TIMEOUT' not in (res, res2) and res2 != res:
                 notes.append('REPEAT: the caller modified in place the arrays it was handed back as the result, then '
                              'repeated the same call on the same objects: different result (first {} second {})'.format(
                                  res[:300], res2[:300]))
@@ -567,15 +679,20 @@ def main():
     def one(spec, pool):
         if not shared:
             clear_all_caches()
+        info0 = dict(pool.info)
         res, notes = execute(spec, pool, job.get('limit', 60), watch=pool.codes() if shared else None, shared=shared)
         # the matrices the code object of this call publishes AFTER the call are part of the result: on shared objects
         # they must be the ones a fresh process computes
         if res != 'TIMEOUT':
             try:
-                res += ' code=' + code_digest(pool.get(CODES, spec['code']) if shared else LAST_CODE[0])
+                res += ' code=' + code_digest(LAST_CODE[0])  # the code object of this call (pool object or temporary)
             except Exception as ex:  # noqa
                 res += ' code=EXC:' + type(ex).__name__
-        return {'res': res, 'notes': notes}
+        LAST_CODE[0] = None
+        info = {}
+        if spec.get('life'):
+            info = {k: v - info0[k] for k, v in pool.info.items()}
+        return {'res': res, 'notes': notes, 'info': info}
 
     def history(hist):
         if shared:
